@@ -100,7 +100,37 @@ def gen_uuid(rng, width, n):
     return bytes([0x10 + (n & 0x0F), n >> 4 & 0xFF] + [rng.randrange(0x20, 0x7F) for _ in range(14)]).hex()
 
 
-def gen_db_spec(rng, perm_base, n_chars=None, notify_bias=False, lens=None):
+TUNED_GROUP_UUID = 'ffa7'       # 0xA7FF, characteristics of equal length for exact-fill ranged reads
+TUNED_SERVICE_UUID = 'eea7'     # 0xA7EE, many tiny services with one UUID (Find By Type Value / group reads)
+
+
+def tuned_services(rng, mtu, idx):
+    """Attributes whose sizes are chosen against the case's ATT_MTU so that responses assembled from
+    several values land on ATT_MTU-1, ATT_MTU and ATT_MTU+1 if the builder's arithmetic is off by one."""
+    chars = []
+    # Read By Type: 2 + k * (2 + L) against ATT_MTU
+    cands = [(k, t // k - 2) for k in (2, 3, 4, 6) for t in (mtu - 3, mtu - 2, mtu - 1)
+             if t % k == 0 and 0 <= t // k - 2 <= min(mtu - 4, 253)]
+    k, ln = rng.choice(cands) if cands else (2, 8)
+    for _ in range(k + 1):
+        chars.append({'uuid': TUNED_GROUP_UUID, 'props': 0x0A, 'perm': 0x03, 'len': ln, 'index': idx, 'kind': 'static',
+                      'descs': []})
+        idx += 1
+    # Read Multiple: 1 + sum(len); Read Multiple Variable: 1 + sum(2 + len); Read / Blob / Notify: 1..3 + len
+    a = rng.randint(1, max(1, min(200, mtu - 6)))
+    for j, ln in enumerate([a, mtu - 1 - a, mtu - 5 - a, mtu - 2 - a, mtu - a, 1, 0, mtu - 1, mtu - 3, mtu, mtu - 2]):
+        ln = max(0, min(512, ln))
+        chars.append({'uuid': struct.pack('<H', 0xA700 + j).hex(), 'props': 0x0A, 'perm': 0x03, 'len': ln, 'index': idx,
+                      'kind': 'static', 'descs': []})
+        idx += 1
+    services = [{'uuid': gen_uuid(rng, 16, 0x7F0), 'primary': True, 'chars': chars, 'includes': []}]
+    if mtu <= 64:
+        for _ in range(mtu // 4 + 2):
+            services.append({'uuid': TUNED_SERVICE_UUID, 'primary': True, 'chars': [], 'includes': []})
+    return services
+
+
+def gen_db_spec(rng, perm_base, n_chars=None, notify_bias=False, lens=None, target_mtu=None):
     """Every permission byte appears on some attribute across the cases: characteristic k of
     the case takes perm_base + k (mod 256); descriptors take random bytes."""
     lens = lens or VALUE_LENS
@@ -139,6 +169,8 @@ def gen_db_spec(rng, perm_base, n_chars=None, notify_bias=False, lens=None):
         services.append({'uuid': gen_uuid(rng, rng.choice([16, 32, 128]), 700 + s),
                          'primary': rng.random() < 0.8, 'chars': chars,
                          'includes': [rng.randrange(s)] if s and rng.random() < 0.4 else []})
+    if target_mtu:
+        services += tuned_services(rng, target_mtu, idx)
     return services
 
 
@@ -155,6 +187,11 @@ class Gen:
         self.last = self.models[-1].handle
         self.types = sorted({m.type for m in self.models})
         self.types16 = [t for t in self.types if len(t) == 2]
+        self.tuned_group = [m for m in self.models if m.type == bytes.fromhex(TUNED_GROUP_UUID)]
+        self.tuned = [m for m in self.models if m.role == 'value' and len(m.type) == 2 and m.type[1] == 0xA7
+                      and m.type != bytes.fromhex(TUNED_GROUP_UUID)]
+        self.tuned_services = [m for m in self.models if m.role == 'service'
+                               and m.value == bytes.fromhex(TUNED_SERVICE_UUID)]
 
     # -- classes ----------------------------------------------------------------
     def rclass(self, m):
@@ -240,6 +277,9 @@ class Gen:
         rng = self.rng
         r = rng.random()
         real = [m.handle for m in self.models]
+        if r < 0.25 and len(self.tuned) >= 3:
+            # values sized against the case's ATT_MTU, in a random order
+            return [m.handle for m in rng.sample(self.tuned, rng.choice([2, 2, 3]))], None
         if r < 0.45:
             return [rng.choice(real) for _ in range(rng.choice([2, 2, 3, 5]))], None
         if r < 0.55:
@@ -280,6 +320,8 @@ class Gen:
             t = rng.choice(self.types16 + [bytes.fromhex('0028')])
             cands = [m for m in self.models if m.type == t and m.value is not None]
             val = rng.choice(cands).value if cands and rng.random() < 0.7 else self.value(mtu)[:30]
+            if self.tuned_services and rng.random() < 0.3:
+                s, e, t, val = 1, 0xFFFF, bytes.fromhex('0028'), bytes.fromhex(TUNED_SERVICE_UUID)
             pdu = ra.find_by_type_value(s, e, struct.unpack('<H', t)[0], val)
             # the server has to read every attribute of that type in range to compare values
             label = self.range_label(s, e, t) if s and s <= e else ('handle-0' if s == 0 else 'start>end')
@@ -288,6 +330,10 @@ class Gen:
             t = self.a_type()
             if op == ra.READ_BY_GROUP_TYPE_REQ and rng.random() < 0.6:
                 t = bytes.fromhex(rng.choice(['0028', '0028', '0128']))
+                if self.tuned_services and rng.random() < 0.4:
+                    s, e = self.tuned_services[0].handle, 0xFFFF
+            elif op == ra.READ_BY_TYPE_REQ and self.tuned_group and rng.random() < 0.25:
+                s, e, t = self.tuned_group[0].handle, self.tuned_group[-1].handle, bytes.fromhex(TUNED_GROUP_UUID)
             pdu = (ra.read_by_type if op == ra.READ_BY_TYPE_REQ else ra.read_by_group_type)(s, e, t)
             label = 'bad-uuid-length' if len(t) not in (2, 16) else \
                 self.range_label(s, e, t, group=op == ra.READ_BY_GROUP_TYPE_REQ)
@@ -384,14 +430,17 @@ def valid_form(g: Gen, op, mtu):
 async def make_harness(case, r, rng, notify_bias=False):
     from vlib import att_peer as ap
 
-    spec = gen_db_spec(rng, case.get('perm_base', 0), notify_bias=notify_bias)
+    want_mtu = rng.choice(MTUS)
+    server_max_mtu = rng.choice([None, None, 517, 100, 23])
+    eff_mtu = min(want_mtu, server_max_mtu or 517)      # what the fixed bearer will run at after the exchange
+    spec = gen_db_spec(rng, case.get('perm_base', 0), notify_bias=notify_bias, target_mtu=eff_mtu)
     eatt = rng.choice(['off', 'config', 'manual', 'manual'])
     eatt_spec = dict(mtu=rng.choice([23, 64, 185, 517, 2048]), mps=rng.choice([23, 64, 251, 2048]),
                      max_credits=rng.choice([1, 2, 8, 256]))
     hs = await ap.Harness.create(
         r, case['seed'], spec, eatt=eatt, eatt_spec=eatt_spec, raw_central=rng.random() < 0.5,
         max_delay=rng.choice([0, 0, 1, 3]), le_acl_len=[rng.choice([27, 64, 251]), rng.choice([27, 64, 251])],
-        server_max_mtu=rng.choice([None, None, 517, 100, 23]))
+        server_max_mtu=server_max_mtu)
     enc, auth = rng.choice([(False, False), (True, False), (True, True)])
     hs.set_link(enc, auth)
     bearers = [hs.fixed]
@@ -399,7 +448,7 @@ async def make_harness(case, r, rng, notify_bias=False):
         n = rng.choice([1, 1, 2])
         for k in range(n):
             b = await hs.open_eatt(my_cid=rng.choice([0x40, 0x55, 0x7F]) + k,
-                                   my_mtu=rng.choice([64, 64, 100, 185, 517, 2048]),
+                                   my_mtu=rng.choice([64, 100, 185, 517, 2048] + [max(64, eff_mtu)] * 3),
                                    my_mps=rng.choice([64, 251, 2048]), credits=rng.choice([1, 3, 40]))
             r.ev('oracle_evals')
             if b is None:
@@ -408,7 +457,8 @@ async def make_harness(case, r, rng, notify_bias=False):
             else:
                 bearers.append(b)
                 r.ev('eatt_bearers')
-    return hs, bearers, enc, auth, {'eatt': eatt, 'eatt_spec': eatt_spec if eatt == 'manual' else None}
+    return hs, bearers, enc, auth, {'eatt': eatt, 'eatt_spec': eatt_spec if eatt == 'manual' else None,
+                                    'client_rx_mtu': want_mtu, 'server_max_mtu': server_max_mtu}
 
 
 def ctx_of(bearer, pdu, label, extra=''):
@@ -446,7 +496,7 @@ async def sweep_case(case, r: R):
     trail = []
     # optionally raise the MTU first so that over-MTU answers of the valid forms are possible
     if rng.random() < 0.5:
-        await send_one(hs, hs.fixed, ra.exchange_mtu(rng.choice(MTUS)), 'valid', trail, r)
+        await send_one(hs, hs.fixed, ra.exchange_mtu(info['client_rx_mtu']), 'valid', trail, r)
     for op in case['opcodes']:
         r.ev('opcodes_swept')
         for bearer in bearers:
@@ -482,7 +532,7 @@ async def seq_case(case, r: R):
     lengths = [rng.randint(1, 20) for _ in range(4)]
     n = sum(lengths)
     r.ev('sequences', len(lengths))
-    mtu_at = rng.randrange(n + 1) if rng.random() < 0.85 else -1
+    mtu_at = rng.randrange(lengths[0] + 1) if rng.random() < 0.9 else -1
     # weights: the multi-attribute builders carry most of the size arithmetic
     ops = [ra.READ_REQ] * 2 + [ra.READ_BLOB_REQ] * 2 + [ra.READ_BY_TYPE_REQ] * 3 + [ra.READ_BY_GROUP_TYPE_REQ] * 3 + \
           [ra.READ_MULTIPLE_REQ] * 3 + [ra.READ_MULTIPLE_VARIABLE_REQ] * 3 + [ra.FIND_BY_TYPE_VALUE_REQ] * 3 + \
@@ -491,7 +541,7 @@ async def seq_case(case, r: R):
     i = 0
     while i < n:
         if i == mtu_at:
-            await send_one(hs, hs.fixed, ra.exchange_mtu(rng.choice(MTUS)), 'valid', trail, r)
+            await send_one(hs, hs.fixed, ra.exchange_mtu(info['client_rx_mtu']), 'valid', trail, r)
             mtu_at = -1
             continue
         if not hs.alive:
@@ -537,7 +587,7 @@ async def notify_case(case, r: R):
     hs, bearers, enc, auth, info = await make_harness(case, r, rng, notify_bias=True)
     trail = []
     if rng.random() < 0.8:
-        await send_one(hs, hs.fixed, ra.exchange_mtu(rng.choice(MTUS)), 'valid', trail, r)
+        await send_one(hs, hs.fixed, ra.exchange_mtu(info['client_rx_mtu']), 'valid', trail, r)
     chars = [m for m in hs.models if m.role == 'value' and cccd_of(hs, m) is not None
              and ra.allowed_write(cccd_of(hs, m).perm, enc, auth)]
     rng.shuffle(chars)
